@@ -219,13 +219,23 @@ def ensure_ws(members):
                 write_if_changed(os.path.join(dst, rel), content)
 
 
-def build_rt():
-    """Build the runtime-library harness (L3) against /repo's current sources; returns exe path."""
+def build_rt(own=None):
+    """Build the runtime-library harness (L3) against /repo's current sources; returns exe path.
+    The harness has one module per property (cargo features remote / intoresp / inter). When the whole harness does not build and
+    `own` names the caller's module, only that module is built: a tree on which another property's programs stopped compiling
+    does not break this property's check."""
     ensure_ws_members({"rt": os.path.join(ROOT, "harness", "rt")})
     p = cargo(["build", "--offline", "-p", "verif-rt"], cwd=WS)
-    if p.returncode != 0:
+    if p.returncode == 0:
+        return os.path.join(TARGET, "debug", "verif-rt")
+    if own is None:
         raise BuildError("rt harness build failed", p.stdout + p.stderr)
-    return os.path.join(TARGET, "debug", "verif-rt")
+    tdir = os.path.join(CACHE, "target-own")
+    feats = "full" + ("," + own if own else "")
+    p2 = cargo(["build", "--offline", "-p", "verif-rt", "--no-default-features", "--features", feats, "--target-dir", tdir], cwd=WS)
+    if p2.returncode != 0:
+        raise BuildError("rt harness build failed (module %s alone)" % (own or "core"), p2.stdout + p2.stderr)
+    return os.path.join(tdir, "debug", "verif-rt")
 
 
 def build_rt_min():
